@@ -71,13 +71,16 @@ def bodyC (h : Bytes → HRes) (p : Lst) (n : Int) : StepR :=
     { handled h (takeBody p n) with again := !(takeBody p n).buf.isEmpty }
   else { p := takeBody p n, again := !(takeBody p n).buf.isEmpty }
 
-def headerC (p : Lst) : StepR :=
+/-- the state right after a good header line: the line is consumed, the length is known -/
+def afterHeader (p : Lst) (pos : Nat) (n : Int) : Lst :=
+  { p with buf := p.buf.drop (pos + 1), resultlen := some n }
+
+def headerC (h : Bytes → HRes) (p : Lst) : StepR :=
   match findNL p.buf with
   | none => { p := p }
   | some pos =>
     match headerLenC (p.buf.take pos) with
-    | some n => { p := { p with buf := p.buf.drop (pos + 1), resultlen := some n },
-                  again := !(p.buf.drop (pos + 1)).isEmpty }
+    | some n => bodyC h (afterHeader p pos n) n       -- the result is gathered in the same call
     | none => { p := toUnknown p, outs := [.lstate p.ls .UNKNOWN, .rejected p.event] }
 
 def ackC (p : Lst) : StepR :=
@@ -95,7 +98,7 @@ def stepC (h : Bytes → HRes) (p : Lst) : StepR :=
   | .READY => { p := toUnknown p, outs := [.lstate p.ls .UNKNOWN] }
   | .BUSY =>
     match p.resultlen with
-    | none => headerC p
+    | none => headerC h p
     | some n => bodyC h p n
 
 theorem headerLen_eq (p : Lst) (line : Bytes) : headerLen p line = headerLenC line := by
@@ -118,16 +121,19 @@ theorem pyFind_eq (b : Bytes) : pyFind b = match findNL b with | none => -1 | so
 @[simp] theorem handled_again (h : Bytes → HRes) (p : Lst) : (handled h p).again = false := by
   unfold handled; cases h p.result <;> simp
 
-theorem bodyStep_eq (h : Bytes → HRes) (p : Lst) (n : Int) (hb : p.buf ≠ []) :
+theorem bodyStep_eq (h : Bytes → HRes) (p : Lst) (n : Int) :
     bodyStep h p n = bodyC h p n := by
   unfold bodyStep bodyC takeBody
-  simp only [hbody_a22, hlsc_g12, hlsc_a23, hlsc_a24, hbody_a25, hlsc_g13, gMore14, hlsc_g14, pySliceTo, pySliceFrom,
+  simp only [hbody_a22, hlsc_g13, hlsc_a23, hlsc_a24, hbody_a25, hlsc_g14, gMore15, hlsc_g15, pySliceTo, pySliceFrom,
     bne_iff_ne, ne_eq, Bool.not_eq_true', beq_iff_eq, Bool.not_not, decide_eq_true_eq, ite_not]
   by_cases h0 : n - (p.result.length : Int) = 0
   · have hk : (n - (p.result.length : Int)).toNat = 0 := by omega
     simp [h0, hk]
   · simp [h0]
 
+theorem busyTail_some (h : Bytes → HRes) (q : Lst) (n : Int) (hq : q.resultlen = some n) :
+    busyTail h q = bodyC h q n := by
+  simp [busyTail, hlsc_g12, hq, bodyStep_eq]
 
 theorem stepP_eq (h : Bytes → HRes) (p : Lst) : stepP h p = stepC h p := by
   unfold stepP stepC ackC headerC
@@ -149,13 +155,18 @@ theorem stepP_eq (h : Bytes → HRes) (p : Lst) : stepP h p = stepC h p := by
           have hne : ((pos : Int) == -1) = false := by
             simp
           simp only [hne, Bool.false_eq_true, if_false, headerLen_eq, hlsc_a13, hlsc_a14, pySliceTo, pySliceFrom,
-            Int.toNat_natCast, gMore14, hlsc_g14, hlsc_a20, toUnknown, hls]
+            Int.toNat_natCast, hlsc_a20, toUnknown, hls]
           have h1 : ((pos : Int) + 1).toNat = pos + 1 := by omega
           rw [h1]
-          cases headerLenC (List.take pos p.buf) <;> simp [hrl]
+          cases hh : headerLenC (List.take pos p.buf) with
+          | none => simp [hrl]
+          | some n =>
+            simp only []
+            rw [busyTail_some h _ n rfl]
+            simp [afterHeader, hls]
       | some n =>
         simp only [gNoLen, hlsc_g8, hrl, Option.isNone_some, Bool.false_eq_true, if_false]
-        rw [bodyStep_eq h p n hb]
+        rw [busyTail_some h p n hrl]
     · -- ACKNOWLEDGED
       simp only [gShort, hlsc_g3, gReadyTok, hlsc_g4, gMore5, hlsc_g5, hlsc_a6, hlsc_a8, READY_FOR_EVENTS_LEN,
         pySliceFrom, toUnknown, hls, ilt_iff]
@@ -215,13 +226,6 @@ theorem ackC_wf (p : Lst) (hw : Wf p) : (ackC p).err = none ∧ Wf (ackC p).p :=
   repeat' split
   all_goals simp_all [Wf, toUnknown]
 
-theorem headerC_wf (p : Lst) (hw : Wf p) (hr : p.resultlen = none) : (headerC p).err = none ∧ Wf (headerC p).p := by
-  unfold headerC
-  repeat' split
-  all_goals simp_all [Wf, toUnknown]
-  rename_i hh
-  exact headerLenC_nonneg _ _ hh
-
 theorem bodyC_wf (h : Bytes → HRes) (p : Lst) (n : Int) (hw : Wf p) (hr : p.resultlen = some n) :
     (bodyC h p n).err = none ∧ Wf (bodyC h p n).p := by
   have hn : (p.result.length : Int) ≤ n := by simpa [Wf, hr] using hw
@@ -236,6 +240,20 @@ theorem bodyC_wf (h : Bytes → HRes) (p : Lst) (n : Int) (hw : Wf p) (hr : p.re
       have h2 : (takeBody p n).resultlen = some n := by simp [takeBody, hr]
       simp [h2]; exact this
 
+theorem afterHeader_wf (p : Lst) (pos : Nat) (n : Int) (hw : Wf p) (hr : p.resultlen = none) (hn : 0 ≤ n) :
+    Wf (afterHeader p pos n) := by
+  have : p.result = [] := by simpa [Wf, hr] using hw
+  simp [Wf, afterHeader, this, hn]
+
+theorem headerC_wf (h : Bytes → HRes) (p : Lst) (hw : Wf p) (hr : p.resultlen = none) :
+    (headerC h p).err = none ∧ Wf (headerC h p).p := by
+  rcases Option.eq_none_or_eq_some (findNL p.buf) with hf | ⟨pos, hf⟩
+  · simp only [headerC, hf]; exact ⟨trivial, hw⟩
+  · rcases Option.eq_none_or_eq_some (headerLenC (p.buf.take pos)) with hh | ⟨n, hh⟩
+    · simp only [headerC, hf, hh]; exact ⟨trivial, by simpa [Wf, toUnknown] using hw⟩
+    · simp only [headerC, hf, hh]
+      exact bodyC_wf h _ n (afterHeader_wf p pos n hw hr (headerLenC_nonneg _ _ hh)) rfl
+
 theorem stepC_nil (h : Bytes → HRes) (p : Lst) (hb : p.buf = []) : stepC h p = { p := p } := by simp [stepC, hb]
 theorem stepC_unknown (h : Bytes → HRes) (p : Lst) (hb : p.buf ≠ []) (hl : p.ls = .UNKNOWN) :
     stepC h p = { p := { p with buf := [] } } := by simp [stepC, hb, hl]
@@ -244,7 +262,7 @@ theorem stepC_ack (h : Bytes → HRes) (p : Lst) (hb : p.buf ≠ []) (hl : p.ls 
 theorem stepC_ready (h : Bytes → HRes) (p : Lst) (hb : p.buf ≠ []) (hl : p.ls = .READY) :
     stepC h p = { p := toUnknown p, outs := [.lstate p.ls .UNKNOWN] } := by simp [stepC, hb, hl]
 theorem stepC_header (h : Bytes → HRes) (p : Lst) (hb : p.buf ≠ []) (hl : p.ls = .BUSY) (hr : p.resultlen = none) :
-    stepC h p = headerC p := by simp [stepC, hb, hl, hr]
+    stepC h p = headerC h p := by simp [stepC, hb, hl, hr]
 theorem stepC_body (h : Bytes → HRes) (p : Lst) (n : Int) (hb : p.buf ≠ []) (hl : p.ls = .BUSY) (hr : p.resultlen = some n) :
     stepC h p = bodyC h p n := by simp [stepC, hb, hl, hr]
 
@@ -254,7 +272,7 @@ theorem stepC_wf (h : Bytes → HRes) (p : Lst) (hw : Wf p) : (stepC h p).err = 
   · cases hl : p.ls
     · rw [stepC_ready h p hb hl]; exact ⟨rfl, by simpa [Wf, toUnknown] using hw⟩
     · rcases Option.eq_none_or_eq_some p.resultlen with hr | ⟨n, hr⟩
-      · rw [stepC_header h p hb hl hr]; exact headerC_wf p hw hr
+      · rw [stepC_header h p hb hl hr]; exact headerC_wf h p hw hr
       · rw [stepC_body h p n hb hl hr]; exact bodyC_wf h p n hw hr
     · rw [stepC_ack h p hb hl]; exact ackC_wf p hw
     · rw [stepC_unknown h p hb hl]; exact ⟨rfl, by simpa [Wf] using hw⟩
@@ -267,15 +285,6 @@ theorem ackC_mu (p : Lst) (ha : (ackC p).again = true) : mu (ackC p).p < mu p :=
     · simp only [ackC, h1, h2, if_true, if_false, mu, List.length_drop]
       split <;> omega
     · simp [ackC, h1, h2] at ha
-
-theorem headerC_mu (p : Lst) (hr : p.resultlen = none) (ha : (headerC p).again = true) : mu (headerC p).p < mu p := by
-  rcases Option.eq_none_or_eq_some (findNL p.buf) with hf | ⟨pos, hf⟩
-  · simp [headerC, hf] at ha
-  · have := findNL_lt _ _ hf
-    rcases Option.eq_none_or_eq_some (headerLenC (p.buf.take pos)) with hh | ⟨n, hh⟩
-    · simp [headerC, hf, hh] at ha
-    · simp only [headerC, hf, hh, mu, hr, List.length_drop]
-      simp; omega
 
 theorem bodyC_mu (h : Bytes → HRes) (p : Lst) (n : Int) (hb : p.buf ≠ []) (hr : p.resultlen = some n)
     (ha : (bodyC h p n).again = true) : mu (bodyC h p n).p < mu p := by
@@ -291,13 +300,34 @@ theorem bodyC_mu (h : Bytes → HRes) (p : Lst) (n : Int) (hb : p.buf ≠ []) (h
       simp [takeBody] at h2 ⊢
       omega
 
+theorem bodyC_again_nil (h : Bytes → HRes) (q : Lst) (n : Int) (hq : q.buf = []) : (bodyC h q n).again = false := by
+  unfold bodyC
+  split
+  · rfl
+  · split <;> simp [takeBody, hq]
+
+theorem headerC_mu (h : Bytes → HRes) (p : Lst) (hr : p.resultlen = none) (ha : (headerC h p).again = true) :
+    mu (headerC h p).p < mu p := by
+  rcases Option.eq_none_or_eq_some (findNL p.buf) with hf | ⟨pos, hf⟩
+  · simp [headerC, hf] at ha
+  · have := findNL_lt _ _ hf
+    rcases Option.eq_none_or_eq_some (headerLenC (p.buf.take pos)) with hh | ⟨n, hh⟩
+    · simp [headerC, hf, hh] at ha
+    · simp only [headerC, hf, hh] at ha ⊢
+      by_cases hq : (afterHeader p pos n).buf = []
+      · rw [bodyC_again_nil h _ n hq] at ha; cases ha
+      · have h1 := bodyC_mu h _ n hq rfl ha
+        have h2 : mu (afterHeader p pos n) < mu p := by
+          simp [mu, afterHeader, hr]; omega
+        omega
+
 theorem stepC_mu (h : Bytes → HRes) (p : Lst) (ha : (stepC h p).again = true) : mu (stepC h p).p < mu p := by
   by_cases hb : p.buf = []
   · rw [stepC_nil h p hb] at ha; simp at ha
   · cases hl : p.ls
     · rw [stepC_ready h p hb hl] at ha; simp at ha
     · rcases Option.eq_none_or_eq_some p.resultlen with hr | ⟨n, hr⟩
-      · rw [stepC_header h p hb hl hr] at ha ⊢; exact headerC_mu p hr ha
+      · rw [stepC_header h p hb hl hr] at ha ⊢; exact headerC_mu h p hr ha
       · rw [stepC_body h p n hb hl hr] at ha ⊢; exact bodyC_mu h p n hb hr ha
     · rw [stepC_ack h p hb hl] at ha ⊢; exact ackC_mu p ha
     · rw [stepC_unknown h p hb hl] at ha; simp at ha
@@ -395,41 +425,6 @@ theorem cls_ack (h : Bytes → HRes) (p : Lst) (x : Bytes) (hb : p.buf ≠ []) (
 theorem isEmpty_append_left (a x : Bytes) (ha : a ≠ []) : (a ++ x).isEmpty = a.isEmpty := by
   cases a <;> simp_all
 
-theorem cls_header (h : Bytes → HRes) (p : Lst) (x : Bytes) (hb : p.buf ≠ []) (hl : p.ls = .BUSY)
-    (hr : p.resultlen = none) : Cls h p x := by
-  have hb' := app_buf_ne p x hb
-  have hl' : (app p x).ls = .BUSY := hl
-  have hr' : (app p x).resultlen = none := hr
-  rw [show Cls h p x = Cls h p x from rfl]
-  rcases Option.eq_none_or_eq_some (findNL p.buf) with hf | ⟨pos, hf⟩
-  · apply Cls.wait; rw [stepC_header h p hb hl hr]; simp [headerC, hf]
-  · have hlt := findNL_lt _ _ hf
-    have f1 : findNL (p.buf ++ x) = some pos := findNL_append_some _ _ _ hf
-    have f2 : (p.buf ++ x).take pos = p.buf.take pos := List.take_append_of_le_length (by omega)
-    have f3 : (p.buf ++ x).drop (pos + 1) = p.buf.drop (pos + 1) ++ x := List.drop_append_of_le_length (by omega)
-    rcases Option.eq_none_or_eq_some (headerLenC (p.buf.take pos)) with hh | ⟨n, hh⟩
-    · apply Cls.unk
-      · rw [stepC_header h p hb hl hr]; simp [headerC, hf, hh]
-      · rw [stepC_header h p hb hl hr]; simp [headerC, hf, hh, toUnknown]
-      · rw [stepC_header h p hb hl hr]; simp [headerC, hf, hh, toUnknown]
-      · rw [stepC_header h p hb hl hr, stepC_header h _ hb' hl' hr']
-        simp only [headerC, app_buf, f1, f2, hf, hh]
-        simp [app, toUnknown]
-    · by_cases h3 : p.buf.drop (pos + 1) = []
-      · apply Cls.yld
-        · rw [stepC_header h p hb hl hr]; simp [headerC, hf, hh, h3]
-        · rw [stepC_header h p hb hl hr]; simp [headerC, hf, hh, h3]
-        · rw [stepC_header h p hb hl hr]; simp [headerC, hf, hh, h3, mu, hr]; omega
-        · rw [stepC_header h p hb hl hr, stepC_header h _ hb' hl' hr']
-          simp only [headerC, app_buf, f1, f2, f3, hf, hh]
-          simp [app, h3]
-      · apply Cls.again
-        · rw [stepC_header h p hb hl hr]; simp [headerC, hf, hh, h3]
-        · rw [stepC_header h p hb hl hr, stepC_header h _ hb' hl' hr']
-          simp only [headerC, app_buf, f1, f2, f3, hf, hh]
-          simp [app, h3, isEmpty_append_left _ x h3]
-
-
 /-- `bodyC` after its first test, as a function of the state that took its share of the buffer -/
 def bodyK (h : Bytes → HRes) (q : Lst) (n : Int) : StepR :=
   if n - (q.result.length : Int) = 0 then { handled h q with again := !q.buf.isEmpty }
@@ -454,58 +449,91 @@ theorem takeBody_app_big (p : Lst) (x : Bytes) (n : Int) (hn : (p.result.length 
     simp; omega
   simp only [takeBody, app, t1, t2, List.take_append, List.drop_append, List.nil_append, e, List.append_assoc]
 
-theorem cls_body (h : Bytes → HRes) (p : Lst) (x : Bytes) (n : Int) (hb : p.buf ≠ []) (hl : p.ls = .BUSY)
-    (hr : p.resultlen = some n) (hw : Wf p) : Cls h p x := by
-  have hb' := app_buf_ne p x hb
-  have hl' : (app p x).ls = .BUSY := hl
-  have hr' : (app p x).resultlen = some n := hr
-  have hn : (p.result.length : Int) ≤ n := by simpa [Wf, hr] using hw
-  have hn' : ¬ n - (p.result.length : Int) < 0 := by omega
-  have hn'' : ¬ n - ((app p x).result.length : Int) < 0 := by simpa using hn'
-  have hbl : 0 < p.buf.length := List.length_pos_iff.mpr hb
-  rw [show Cls h p x = Cls h p x from rfl]
-  by_cases hk : (n - (p.result.length : Int)).toNat ≤ p.buf.length
+theorem handled_app (h : Bytes → HRes) (q : Lst) (x : Bytes) :
+    handled h (app q x) = { handled h q with p := app (handled h q).p x } := by
+  unfold handled
+  simp only [app_result, app_event, app_ls]
+  cases h q.result <;> simp [afterResult, app, hlsc_a27]
+
+/-- classification of a call body that ends in the result-gathering part run on state `q`
+    (`q = p` for a pending result, `q = afterHeader p …` right after a header line) -/
+theorem cls_of_body (h : Bytes → HRes) (p q : Lst) (x : Bytes) (n : Int) (hpb : p.buf ≠ [])
+    (hl : q.ls = .BUSY) (hr : q.resultlen = some n) (hn : (q.result.length : Int) ≤ n)
+    (E1 : stepC h p = bodyC h q n) (E2 : stepC h (app p x) = bodyC h (app q x) n) : Cls h p x := by
+  have hn' : ¬ n - (q.result.length : Int) < 0 := by omega
+  have hn'' : ¬ n - ((app q x).result.length : Int) < 0 := by simpa using hn'
+  have hpl : 0 < p.buf.length := List.length_pos_iff.mpr hpb
+  by_cases hk : (n - (q.result.length : Int)).toNat ≤ q.buf.length
   · -- the result completes inside the present buffer
-    have hc : n - ((takeBody p n).result.length : Int) = 0 := by simp [takeBody]; omega
-    have hc' : n - ((app (takeBody p n) x).result.length : Int) = 0 := hc
-    have e1 : stepC h p = { handled h (takeBody p n) with again := !(takeBody p n).buf.isEmpty } := by
-      rw [stepC_body h p n hb hl hr, bodyC_eq_K h p n hn']; simp [bodyK, hc]
+    have hc : n - ((takeBody q n).result.length : Int) = 0 := by simp [takeBody]; omega
+    have e1 : stepC h p = { handled h (takeBody q n) with again := !(takeBody q n).buf.isEmpty } := by
+      rw [E1, bodyC_eq_K h q n hn']; simp [bodyK, hc]
     have e2 : stepC h (app p x) =
-        { handled h (app (takeBody p n) x) with again := !(app (takeBody p n) x).buf.isEmpty } := by
-      rw [stepC_body h _ n hb' hl' hr', bodyC_eq_K h _ n hn'', takeBody_app_small p x n hk]; simp [bodyK, hc]
-    have e3 : handled h (app (takeBody p n) x) = { handled h (takeBody p n) with p := app (handled h (takeBody p n)).p x } := by
-      unfold handled
-      simp only [app_result, app_event, app_ls]
-      cases h (takeBody p n).result <;> simp [afterResult, app, hlsc_a27]
-    by_cases h3 : (takeBody p n).buf = []
+        { handled h (app (takeBody q n) x) with again := !(app (takeBody q n) x).buf.isEmpty } := by
+      rw [E2, bodyC_eq_K h _ n hn'', takeBody_app_small q x n hk]; simp [bodyK, hc]
+    have e3 := handled_app h (takeBody q n) x
+    by_cases h3 : (takeBody q n).buf = []
     · apply Cls.yld
       · rw [e1]; simp [h3]
       · rw [e1]; simp [h3]
-      · rw [e1]; simp [h3, mu, hr] <;> omega
+      · rw [e1]; simp [h3, mu]; omega
       · rw [e2, e1, e3]; simp [h3]
     · apply Cls.again
       · rw [e1]; simp [h3]
       · rw [e2, e1, e3]; simp [h3, isEmpty_append_left _ x h3]
   · -- the buffer is swallowed whole and more is needed
-    have hk' : p.buf.length ≤ (n - (p.result.length : Int)).toNat := by omega
-    have t1 : p.buf.take (n - (p.result.length : Int)).toNat = p.buf := List.take_of_length_le hk'
-    have t2 : p.buf.drop (n - (p.result.length : Int)).toNat = [] := List.drop_of_length_le hk'
-    have hc : ¬ n - ((takeBody p n).result.length : Int) = 0 := by simp [takeBody, t1]; omega
-    have e1 : stepC h p = { p := takeBody p n, again := false } := by
-      rw [stepC_body h p n hb hl hr, bodyC_eq_K h p n hn']; simp [bodyK, hc]; simp [takeBody, t2] <;> omega
+    have hk' : q.buf.length ≤ (n - (q.result.length : Int)).toNat := by omega
+    have t1 : q.buf.take (n - (q.result.length : Int)).toNat = q.buf := List.take_of_length_le hk'
+    have t2 : q.buf.drop (n - (q.result.length : Int)).toNat = [] := List.drop_of_length_le hk'
+    have hc : ¬ n - ((takeBody q n).result.length : Int) = 0 := by simp [takeBody, t1]; omega
+    have e1 : stepC h p = { p := takeBody q n, again := false } := by
+      rw [E1, bodyC_eq_K h q n hn']; simp [bodyK, hc]; simp [takeBody, t2] <;> omega
     apply Cls.part
     · rw [e1]
     · rw [e1]
-    · rw [e1]; simp [takeBody, t2]; omega
+    · rw [e1]; simp [takeBody, t2] <;> omega
     · intro hx
       rw [e1]
-      have hb2 : (app (takeBody p n) x).buf ≠ [] := by simp [app, takeBody, t2, hx]
-      have hl2 : (app (takeBody p n) x).ls = .BUSY := by simp [takeBody, hl]
-      have hr2 : (app (takeBody p n) x).resultlen = some n := by simp [takeBody, hr]
-      have hn2 : ¬ n - ((app (takeBody p n) x).result.length : Int) < 0 := by
+      have hb2 : (app (takeBody q n) x).buf ≠ [] := by simp [app, takeBody, t2, hx]
+      have hl2 : (app (takeBody q n) x).ls = .BUSY := by simp [takeBody, hl]
+      have hr2 : (app (takeBody q n) x).resultlen = some n := by simp [takeBody, hr]
+      have hn2 : ¬ n - ((app (takeBody q n) x).result.length : Int) < 0 := by
         simp [takeBody, t1]; omega
-      rw [stepC_body h _ n hb' hl' hr', stepC_body h _ n hb2 hl2 hr2, bodyC_eq_K h _ n hn'', bodyC_eq_K h _ n hn2,
-        takeBody_app_big p x n hn hk']
+      rw [E2, stepC_body h _ n hb2 hl2 hr2, bodyC_eq_K h _ n hn'', bodyC_eq_K h _ n hn2,
+        takeBody_app_big q x n hn hk']
+
+theorem cls_body (h : Bytes → HRes) (p : Lst) (x : Bytes) (n : Int) (hb : p.buf ≠ []) (hl : p.ls = .BUSY)
+    (hr : p.resultlen = some n) (hw : Wf p) : Cls h p x :=
+  cls_of_body h p p x n hb hl hr (by simpa [Wf, hr] using hw) (stepC_body h p n hb hl hr)
+    (stepC_body h _ n (app_buf_ne p x hb) hl hr)
+
+theorem cls_header (h : Bytes → HRes) (p : Lst) (x : Bytes) (hb : p.buf ≠ []) (hl : p.ls = .BUSY)
+    (hr : p.resultlen = none) (hw : Wf p) : Cls h p x := by
+  have hb' := app_buf_ne p x hb
+  have hl' : (app p x).ls = .BUSY := hl
+  have hr' : (app p x).resultlen = none := hr
+  rcases Option.eq_none_or_eq_some (findNL p.buf) with hf | ⟨pos, hf⟩
+  · apply Cls.wait; rw [stepC_header h p hb hl hr]; simp [headerC, hf]
+  · have hlt := findNL_lt _ _ hf
+    have f1 : findNL (p.buf ++ x) = some pos := findNL_append_some _ _ _ hf
+    have f2 : (p.buf ++ x).take pos = p.buf.take pos := List.take_append_of_le_length (by omega)
+    have f3 : (p.buf ++ x).drop (pos + 1) = p.buf.drop (pos + 1) ++ x := List.drop_append_of_le_length (by omega)
+    rcases Option.eq_none_or_eq_some (headerLenC (p.buf.take pos)) with hh | ⟨n, hh⟩
+    · apply Cls.unk
+      · rw [stepC_header h p hb hl hr]; simp [headerC, hf, hh]
+      · rw [stepC_header h p hb hl hr]; simp [headerC, hf, hh, toUnknown]
+      · rw [stepC_header h p hb hl hr]; simp [headerC, hf, hh, toUnknown]
+      · rw [stepC_header h p hb hl hr, stepC_header h _ hb' hl' hr']
+        simp only [headerC, app_buf, f1, f2, hf, hh]
+        simp [app, toUnknown]
+    · have hres : p.result = [] := by simpa [Wf, hr] using hw
+      have hn0 := headerLenC_nonneg _ _ hh
+      have ea : afterHeader (app p x) pos n = app (afterHeader p pos n) x := by
+        simp [afterHeader, app, f3]
+      refine cls_of_body h p (afterHeader p pos n) x n hb (by simp [afterHeader, hl]) rfl
+        (by simp [afterHeader, hres, hn0]) ?_ ?_
+      · rw [stepC_header h p hb hl hr]; simp only [headerC, hf, hh]
+      · rw [stepC_header h _ hb' hl' hr']; simp only [headerC, app_buf, f1, f2, hh, ← ea]
 
 theorem stepC_cls (h : Bytes → HRes) (p : Lst) (x : Bytes) (hw : Wf p) : Cls h p x := by
   by_cases hb : p.buf = []
@@ -519,7 +547,7 @@ theorem stepC_cls (h : Bytes → HRes) (p : Lst) (x : Bytes) (hw : Wf p) : Cls h
       · rw [stepC_ready h p hb hl]; simp [toUnknown]
       · rw [stepC_ready h p hb hl, stepC_ready h _ hb' hl]; simp [toUnknown, app]
     · rcases Option.eq_none_or_eq_some p.resultlen with hr | ⟨n, hr⟩
-      · exact cls_header h p x hb hl hr
+      · exact cls_header h p x hb hl hr hw
       · exact cls_body h p x n hb hl hr hw
     · exact cls_ack h p x hb hl
     · have hb' := app_buf_ne p x hb
